@@ -3,6 +3,8 @@
 
 def is_strict_der(sig: bytes) -> bool:
     """sig WITHOUT the sighash byte; port of IsValidSignatureEncoding minus the trailing hashtype byte."""
+    if not isinstance(sig, (bytes, bytearray)):
+        return False
     if len(sig) < 8 or len(sig) > 72:
         return False
     if sig[0] != 0x30:
@@ -58,6 +60,8 @@ def encode(r: int, s: int) -> bytes:
 
 def decode_lenient(sig: bytes):
     """One-byte-length TLV reader: SEQUENCE { INTEGER, INTEGER } ignoring minimality; None if not even that."""
+    if not isinstance(sig, (bytes, bytearray)):
+        return None
     try:
         if sig[0] != 0x30:
             return None
